@@ -14,7 +14,7 @@ def run(tier, seed):
     scripts = []
     for sd in ("two", "svc", "rich"):
         # every FAILING call the model has in every reachable state of the bound (the rejected argument at every position)
-        scripts += tc.generate(rep, "Gen_FimTopology seed=%s (failing calls)" % sd, tc.consts(3 if quick or sd == "rich" else 4, sd, "full"),
+        scripts += tc.generate(rep, "Gen_FimTopology seed=%s (failing calls)" % sd, tc.consts((2 if sd == "rich" else 3) if quick else (3 if sd == "rich" else 4), sd, "full"),
                                keep=lambda p: (not p["chg"]) and p["op"]["op"] not in ("Views", "HandleIfs", "Validate"),
                                workers=8)
     failing = lambda op, clause: True
@@ -25,7 +25,7 @@ def run(tier, seed):
     tc.run_and_validate(rep, sscripts, "all failing calls in substrate models of the bound", flavour="substrate")
     rng = random.Random(seed)
     gen = tc.RandomTopoOps(rng, invalid_prob=0.5)
-    rs = [gen.script(45) for _ in range(150 if quick else 1500)]
+    rs = [gen.script(45) for _ in range(100 if quick else 1500)]
     tc.run_and_validate(rep, rs, "random walks with invalid calls injected with probability 1/2")
     # keep only rejections on lines where the call raised (or was expected to raise): that is this property's concern
     rep.rejects = [r for r in rep.rejects if r.detail.get("observed_out") != "ok" or r.clause.startswith("outcome: expected")
